@@ -52,12 +52,12 @@ Proof.
 Qed.
 
 Example ex_is_answer_hdr_only :
-  is_answer (mkReq 7 [1]) (mkMsg 7 true false 2 0 0 0 0 (Some []) (Some [])) = true /\
-  is_answer (mkReq 7 [1]) (mkMsg 7 true false 0 0 0 0 0 (Some []) (Some [])) = false /\
-  is_answer (mkReq 7 [1]) (mkMsg 7 true false 0 1 0 0 0 (Some [1]) (Some [])) = true /\
-  is_answer (mkReq 7 [1]) (mkMsg 8 true false 0 1 0 0 0 (Some [1]) (Some [])) = false /\
-  is_answer (mkReq 7 [1]) (mkMsg 7 false false 0 1 0 0 0 (Some [1]) (Some [])) = false /\
-  is_answer (mkReq 7 [1]) (mkMsg 7 true false 0 1 0 0 0 (Some [2]) (Some [])) = false.
+  is_answer (mkReq 7 [1]) (mkMsg 7 true false 2 0 0 0 0 (Some []) (Some []) None) = true /\
+  is_answer (mkReq 7 [1]) (mkMsg 7 true false 0 0 0 0 0 (Some []) (Some []) None) = false /\
+  is_answer (mkReq 7 [1]) (mkMsg 7 true false 0 1 0 0 0 (Some [1]) (Some []) None) = true /\
+  is_answer (mkReq 7 [1]) (mkMsg 8 true false 0 1 0 0 0 (Some [1]) (Some []) None) = false /\
+  is_answer (mkReq 7 [1]) (mkMsg 7 false false 0 1 0 0 0 (Some [1]) (Some []) None) = false /\
+  is_answer (mkReq 7 [1]) (mkMsg 7 true false 0 1 0 0 0 (Some [2]) (Some []) None) = false.
 Proof. vm_compute. repeat split. Qed.
 
 (* ------------------------------------------------------- receive loop *)
@@ -176,9 +176,9 @@ Qed.
 
 Example ex_dgram :
   dgram_run 2 50 [0]
-    [mkAtt FNone 1000 [(10, PMsg (mkMsg 1001 true false 0 1 0 0 0 (Some [0]) (Some []))); (60, PMsg (mkMsg 1000 true false 0 1 0 0 0 (Some [0]) (Some [])))];
-     mkAtt FNone 1001 [(5, PGarbage); (7, PMsg (mkMsg 1000 true false 0 1 0 0 0 (Some [0]) (Some []))); (9, PMsg (mkMsg 1001 true true 0 1 0 0 0 (Some [0]) (Some [])))]]
-  = (DOk 1 59 (mkMsg 1001 true true 0 1 0 0 0 (Some [0]) (Some [])), 2) /\
+    [mkAtt FNone 1000 [(10, PMsg (mkMsg 1001 true false 0 1 0 0 0 (Some [0]) (Some []) None)); (60, PMsg (mkMsg 1000 true false 0 1 0 0 0 (Some [0]) (Some []) None))];
+     mkAtt FNone 1001 [(5, PGarbage); (7, PMsg (mkMsg 1000 true false 0 1 0 0 0 (Some [0]) (Some []) None)); (9, PMsg (mkMsg 1001 true true 0 1 0 0 0 (Some [0]) (Some []) None))]]
+  = (DOk 1 59 (mkMsg 1001 true true 0 1 0 0 0 (Some [0]) (Some []) None), 2) /\
   dgram_run 2 50 [0] [] = (DErr 4 150, 3).
 Proof. vm_compute. auto. Qed.
 
@@ -194,7 +194,7 @@ Proof.
   destruct (m_tc m') eqn:E; intros H; inversion H; subst; auto.
 Qed.
 
-Example ex_tc : ds_result (TOk (mkMsg 1 true true 0 1 0 0 0 (Some [0]) (Some []))) (TErr 9) = (TErr 9, true).
+Example ex_tc : ds_result (TOk (mkMsg 1 true true 0 1 0 0 0 (Some [0]) (Some []) None)) (TErr 9) = (TErr 9, true).
 Proof. reflexivity. Qed.
 
 (* --------------------------------------- stream response-timeout config *)
@@ -273,3 +273,79 @@ Proof. apply response_timeout_respected_if_assigned. reflexivity. Qed.
 
 Lemma junk_keeps_deadline_now : junk_keeps_deadline.
 Proof. apply junk_keeps_deadline_if_known_only. reflexivity. Qed.
+
+(* -------------------------------------- idle timeout and edns-tcp-keepalive *)
+(* an idle connection is closed exactly when the idle timeout has elapsed ... *)
+Lemma idle_closes_iff resp idle since now :
+  run_tick resp idle (TIdle since) now = TIdleTimeout <-> idle <= now - since.
+Proof.
+  cbn [run_tick]. cbv [run_idle_fires]. destruct (N.leb_spec idle (now - since)) as [Hl|Hl]; split; intros H0; try reflexivity; try lia; discriminate.
+Qed.
+
+(* ... which is what it finds when it wakes from the sleep it computed *)
+Lemma idle_closes_after_sleep resp idle since now :
+  since <= now ->
+  run_tick resp idle (TIdle since) (now + run_sleep resp idle (TIdle since) now) = TIdleTimeout.
+Proof. intros H. apply idle_closes_iff. cbn [run_sleep]. lia. Qed.
+
+(* the response timeout needs the elapsed time to EXCEED it *)
+Lemma response_timeout_fires_iff resp idle start now :
+  run_tick resp idle (TActive (Some start)) now = TReadTimeout <-> resp < now - start.
+Proof.
+  cbn [run_tick]. cbv [run_timeout_fires]. destruct (N.ltb_spec resp (now - start)) as [Hl|Hl]; split; intros H0; try reflexivity; try lia; discriminate.
+Qed.
+
+(* no timer runs while the connection has neither a request nor an idle period *)
+Lemma no_timer_without_request resp idle now : run_tick resp idle (TActive None) now = TActive None.
+Proof. reflexivity. Qed.
+
+(* the boolean the demultiplexer model keeps is the numeric idle timeout being
+   zero, before and after a keepalive option *)
+Lemma keepalive_idle_zero_consistent iz idle ka :
+  iz = (idle =? 0) -> keepalive_idle_zero iz ka = (keepalive_idle idle ka =? 0).
+Proof. intros ->. destruct ka as [[v|]|]; reflexivity. Qed.
+
+(* a keepalive option without a timeout changes nothing; with timeout v the
+   idle timeout becomes v * 100 ms, and only v = 0 closes the idle connection at once *)
+Lemma keepalive_spec idle v now :
+  keepalive_idle idle None = idle /\ keepalive_idle idle (Some None) = idle /\
+  keepalive_idle idle (Some (Some v)) = 100 * v /\
+  (go_idle (keepalive_idle idle (Some (Some v))) now = TIdleTimeout <-> v = 0).
+Proof.
+  cbv [keepalive_idle keepalive_units_ms go_idle]. repeat split; try reflexivity.
+  - destruct (N.eqb_spec (100 * v) 0); [lia|discriminate].
+  - intros ->. reflexivity.
+Qed.
+
+(* ------------------------------------------------------- constants pinned *)
+(* every numeric T1 item that the models use only as a parameter is pinned to a
+   consequence, so that a changed value breaks this lemma *)
+Lemma constants_pinned :
+  (* dgram: 1 + max_retries is u8 arithmetic and must not overflow at the limit *)
+  dgram_attempts dgram_retries_max <= 255 /\ dgram_retries_default <= dgram_retries_max /\
+  (* worst-case time budgets of the datagram transport, default and maximum (ms) *)
+  dgram_attempts dgram_retries_default * dgram_timeout_default_ms = 30000 /\
+  dgram_attempts dgram_retries_max * dgram_timeout_max_ms = 6060000 /\
+  0 < dgram_timeout_min_ms /\
+  (* the receive loop runs exactly while the deadline lies in the future *)
+  (forall T, dgram_loop_cond T T = false /\ dgram_loop_cond (T + 1) T = true) /\
+  (* stream response timeout: default 19 s, clamped to [1 ms, 600 s] *)
+  stream_timeout_default_ms = 19000 /\ stream_limit 0 = 1 /\ stream_limit 1000000000 = 600000 /\
+  (forall t, stream_timeout_min_ms <= stream_limit t <= stream_timeout_max_ms) /\
+  (* idle timeout: default 10 s, zero allowed, at most one hour *)
+  idle_timeout_default_ms = 10000 /\ idle_timeout_max_ms = 3600000 /\
+  (* the table index must fit the 16 bit message ID *)
+  idle_timeout_default_ms <= idle_timeout_max_ms /\ idx_limit = 65536.
+Proof.
+  cbv [dgram_attempts dgram_retries_max dgram_retries_default dgram_timeout_default_ms dgram_timeout_max_ms
+       dgram_timeout_min_ms dgram_loop_cond stream_timeout_default_ms stream_limit defminmax_limit
+       stream_timeout_min_ms stream_timeout_max_ms idle_timeout_default_ms idle_timeout_max_ms idx_limit].
+  repeat split; try lia; try reflexivity.
+Qed.
+
+(* at the deadline nothing more is received *)
+Lemma recv_loop_at_deadline T r pkts : recv_loop T r T pkts = RTimeout.
+Proof.
+  destruct pkts as [|[off p] rest]; cbn [recv_loop]; cbv [dgram_loop_cond];
+    destruct (N.ltb_spec T T); try lia; reflexivity.
+Qed.
